@@ -9,7 +9,7 @@ SUBS = ["I_R", "divU", "gradp", "p", "state"]
 
 
 def gen_chk(seed, path, nspecies=3, nghost=None, aniso=True, time=None, nlevels=None, bf=4,
-            base_blocks=(1, 3), zero_y=False):
+            base_blocks=(1, 3), zero_y=False, header_int=None):
     rng = random.Random(seed)
     nprng = np.random.default_rng(seed)
     m = gen.gen_model(seed, ndims=3, nlevels=nlevels if nlevels else rng.randint(1, 3), nfields=1,
@@ -27,6 +27,8 @@ def gen_chk(seed, path, nspecies=3, nghost=None, aniso=True, time=None, nlevels=
     m.sublayout = {}
     with open(os.path.join(path, "Header"), "w") as h:
         h.write("Checkpoint version: 1\n%d\n%d\n" % (m.nlevels - 1, m.steps[0]))
+        if header_int is not None:      # header flavour with an integer line before the time
+            h.write("%d\n" % header_int)
         h.write(gen.fmt_repr(m.time) + "\n")
         h.write("3.946824488833992e-12\n3.5880222625763559e-12\n")
         h.write(" ".join(gen.fmt_17g(v) for v in m.geo_low) + " \n")
